@@ -379,6 +379,33 @@ def boundary_frames(ctx, rng):
             ctx.case(("boundary", L), True, sample={"kind": "boundary-frame", "frame_length": L})
 
 
+def huge_frames(ctx):
+    """pyjelly output (both modes) whose only frame needs a FOUR-byte length prefix (2^21 - 300 .. 3 * 2^20 bytes)."""
+    for k in ((1 << 21) - 300, (1 << 21) - 60, (1 << 21) + 5, 3 << 20):
+        stmts = [(("iri", "http://e/s"), ("iri", "http://e/p"), ("lit", "y" * k, None, None))]
+        cfg = {"integration": "generic", "physical": 1, "entry": "stream_frames_gen", "frame_size": 250,
+               "preset": (8, 4, 0), "logical": 1, "generalized": True, "rdf_star": True, "stream_name": ""}
+        want = T.norm_events([("stmt", s) for s in stmts])
+        out = {}
+        for delimited in (True, False):
+            cfg["delimited"] = delimited
+            data = pj.serialize(cfg, stmts)
+            try:
+                if delimited_jelly_hint(data[:3]) != delimited:
+                    out[delimited] = "misclassified"
+                else:
+                    out[delimited] = "ok" if T.norm_events(pj.parse("generic", "flat", data)) == want else "parsed to something else"
+            except Exception as ex:  # noqa: BLE001
+                out[delimited] = f"raised {type(ex).__name__}: {str(ex)[:80]}"
+            L = len(data)
+        ctx.observe("paired-streams-parsed")
+        ctx.observe("frames-of-about-2MiB-and-more")
+        if out[True] != "ok" or out[False] != "ok":
+            ctx.violation({"clause": "paired-parse-differs", "frame_length": L, "kind": "huge-frame",
+                           "summary": f"single frame of about {L} bytes: delimited -> {out[True]}, non-delimited -> {out[False]}"})
+        ctx.case(("huge", k), True, sample={"kind": "huge-frame", "literal_bytes": k})
+
+
 def rdflib_writer_modes(ctx, rng):
     """Graph.serialize(format='jelly') asked for each mode through options=, stream=+options= and stream= alone:
     what lands in the file must be classified as the mode that was asked for, and both must parse alike."""
@@ -449,6 +476,8 @@ def run_shard(ctx):
             ctx.case(("crafted", desc), True, sample={"kind": "crafted", "desc": desc})
     if ctx.shard == 2 % ctx.nshards:
         first_frame_length_sweep(ctx)
+    if ctx.shard == 3 % ctx.nshards:
+        huge_frames(ctx)
     i = 0
     while not ctx.out_of_time() and i < (6 if ctx.tier == "quick" else 60):
         pyjelly_pairs(ctx, ctx.rng("pair", i))
@@ -496,6 +525,8 @@ def replay(w: dict):
             if bad:
                 return {"clause": "framing-taken-from-passed-options", "summary": bad}
         return None
+    if w.get("kind") == "huge-frame":
+        return {"clause": w["clause"], "summary": "re-run ./check C08 with the same VERIF_SEED"}
     if w.get("kind") == "length-sweep":
         class _C:
             def __init__(self):
